@@ -83,9 +83,30 @@ def _one(wname, prop, master, i, tier, trace=False):
         def job():
             plan, ctx = _one_here(wname, prop, master, i, tier, False)
             return plan, ctx.result()
-        plan, res = forked(job)
+        from .isolate import RunTimeout
+        try:
+            plan, res = forked(job)
+        except RunTimeout as e:
+            # bounded liveness: a run over a valid plan that does not come back is a violation of the property being
+            # judged (never exit 0), reported with the plan as it was generated
+            seed = run_seed(master, prop, wname, i)
+            plan = w.generate(rng_for(seed), (prop,), tier)
+            plan["run_seed"], plan["index"] = seed, i
+            finish_plan(plan, seed)
+            return plan, timeout_ctx(prop, str(e))
         return plan, Ctx.rebuild((prop,), res, [])
     return _one_here(wname, prop, master, i, tier, trace)
+
+
+TIMEOUT_ORACLE = "run_did_not_terminate_within_the_wall_limit"
+
+
+def timeout_ctx(prop, why):
+    from .core import Ctx
+    v = {"property": prop, "oracle": TIMEOUT_ORACLE, "step": -1, "detail": {"why": why}, "sig": TIMEOUT_ORACLE}
+    res = {"violations": [v], "faults": {}, "probes": {"run_killed_at_wall_limit": 1}, "sigs": [], "bigrams": [],
+           "digest": "timeout", "judged": 1, "sim_seconds": 0, "events": 0}
+    return Ctx.rebuild((prop,), res, [])
 
 
 def _one_here(wname, prop, master, i, tier, trace=False):
@@ -103,7 +124,8 @@ def _one_here(wname, prop, master, i, tier, trace=False):
 def work(args):
     """Execute a chunk of runs; returns aggregated, picklable statistics."""
     wname, prop, master, indices, tier, det_check = args
-    faulthandler.dump_traceback_later(max(120, 30 * len(indices)), exit=True)
+    from .isolate import RUN_TIMEOUT_S
+    faulthandler.dump_traceback_later(max(120, 30 * len(indices)) + int(2 * RUN_TIMEOUT_S), exit=True)
     try:
         boot.boot()
         agg = {
@@ -156,7 +178,8 @@ def work(args):
                 agg["bigrams"].update(r["bigrams"])
             if n < 1 and len(agg["samples"]) < 1:
                 agg["samples"].append(_sample(plan))
-            if n < det_check:
+            timed_out = any(v["oracle"] == TIMEOUT_ORACLE for v in r["violations"])
+            if n < det_check and not timed_out:
                 if getattr(wmod, "DETERMINISM", "full") == "plan":
                     seed2 = run_seed(master, prop, wname, i)
                     plan2 = wmod.generate(rng_for(seed2), (prop,), tier)
@@ -173,6 +196,8 @@ def work(args):
             for v in r["violations"]:
                 agg["violations"].append({"index": i, "seed": plan["run_seed"], "violation": v,
                                           "plan": plan})
+            if timed_out:
+                break          # one run that had to be killed is enough for this chunk
         agg["faults"] = dict(agg["faults"])
         agg["probes"] = dict(agg["probes"])
         return agg
@@ -253,6 +278,9 @@ def _fresh_digests(wname, prop, master, indices, tier, hashseed):
     return json.loads(out.stdout.strip().splitlines()[-1])
 
 
+from .isolate import RUN_TIMEOUT_S  # noqa: E402
+
+
 def run_check(prop, tier, budget=None, max_runs=None, workers=None, quiet=False):
     boot.boot()
     t_start = time.monotonic()
@@ -300,12 +328,12 @@ def run_check(prop, tier, budget=None, max_runs=None, workers=None, quiet=False)
                 if not pending:
                     break
                 try:
-                    done, pending = cf.wait(pending, timeout=300, return_when=cf.FIRST_COMPLETED)
+                    done, pending = cf.wait(pending, timeout=300 + 2 * RUN_TIMEOUT_S, return_when=cf.FIRST_COMPLETED)
                 except Exception as e:
                     harness_error = "wait failed: %r" % (e,)
                     break
                 if not done:
-                    harness_error = "no chunk finished within 300 s (hung worker?)"
+                    harness_error = "no chunk finished within %d s (hung worker?)" % (300 + 2 * RUN_TIMEOUT_S)
                     break
                 for fut in done:
                     try:
@@ -324,6 +352,8 @@ def run_check(prop, tier, budget=None, max_runs=None, workers=None, quiet=False)
                     totals["events"] += agg["events"]
                     totals["nontrivial_runs"] += agg["nontrivial_runs"]
                     totals["violations"].extend(agg["violations"])
+                    if any(x["violation"]["oracle"] == TIMEOUT_ORACLE for x in agg["violations"]):
+                        deadline = time.monotonic()          # runs are being killed at the wall limit: stop submitting
                     totals["nondet"].extend((wname, i) for i in agg["nondeterministic"])
                     totals["errors"].extend(agg["errors"])
                     for i, d in agg["digests"].items():
@@ -470,8 +500,12 @@ def write_replay(prop, item, mplan, mv, execs):
         def job():
             c = w.execute(mplan, (prop,), trace=True)
             return c.result(), c.trace
-        res_, lines_ = forked(job)
-        ctx = Ctx.rebuild((prop,), res_, lines_, trace=True)
+        from .isolate import RunTimeout
+        try:
+            res_, lines_ = forked(job)
+            ctx = Ctx.rebuild((prop,), res_, lines_, trace=True)
+        except RunTimeout as e:
+            ctx = timeout_ctx(prop, str(e))
     else:
         ctx = w.execute(mplan, (prop,), trace=True)
     doc = {
@@ -514,8 +548,24 @@ def replay(path, verbose=True):
         doc = json.load(f)
     w = world(doc["world"])
     prop = doc["property"]
-    ctx = w.execute(doc["minimised_plan"], (prop,), trace=True)
     exp = doc["expected"]
+    if exp.get("oracle") == TIMEOUT_ORACLE:
+        # the recorded violation is "does not terminate": execute in a child under the same wall limit
+        from .isolate import forked, RunTimeout
+        try:
+            forked(lambda: w.execute(doc["minimised_plan"], (prop,)).result())
+            ctx = None
+        except RunTimeout as e:
+            ctx = timeout_ctx(prop, str(e))
+        if ctx is None:
+            if verbose:
+                print("replay: the run terminated this time; recorded violation not reproduced")
+            return 0
+        if verbose:
+            print("VIOLATION property=%s replay=%s" % (prop, path))
+            print("  reproduced: oracle=%s digest_matches=True" % TIMEOUT_ORACLE)
+        return 1
+    ctx = w.execute(doc["minimised_plan"], (prop,), trace=True)
     for v in ctx.violations:
         if v["property"] == exp["property"] and v["oracle"] == exp["oracle"]:
             same_digest = (ctx.digest() == doc.get("expected_digest"))
